@@ -26,6 +26,14 @@ PROPERTIES = {
                    "allow_unsupported": ["non-ASCII", "symbolic allocation size", "ParseFloat", "opaque"]}],
         "bounds": {}, "outside": [], "assumptions": [],
     },
+    "C07": {
+        "level": "model_checking",
+        "quick": [{"match": "VerifH_c07_.*", "timeout": 900, "shards": {"VerifH_c07_expired_is_absent": 10, "VerifH_c07_expire_arith": 4}, "sharddepth": 12,
+                   "allow_unsupported": ["non-ASCII", "symbolic allocation size", "ParseFloat", "opaque"]}],
+        "thorough": [{"match": "VerifH_c07_.*", "timeout": 3000, "shards": {"VerifH_c07_expired_is_absent": 12, "VerifH_c07_expire_arith": 4}, "sharddepth": 12,
+                   "allow_unsupported": ["non-ASCII", "symbolic allocation size", "ParseFloat", "opaque"]}],
+        "bounds": {}, "outside": [], "assumptions": [],
+    },
     "C09": {
         "level": "model_checking",
         "quick": [{"match": "VerifH_c09_.*", "timeout": 600, "shards": 4}],
